@@ -237,8 +237,9 @@ func c14ExitCode(c *Check, a *Anchors) {
 		c.Errorf("exit-code-visible: exit-code cell not found in SSA")
 		return
 	}
-	pe := &PathEnum{Fn: fn, MaxRevisit: revisit(), Event: func(in ssa.Instruction) (string, string) {
-		if st, ok := in.(*ssa.Store); ok && st.Addr == cellAlloc {
+	pe := &PathEnum{Fn: fn, MaxRevisit: revisit(), EventR: func(in ssa.Instruction, resolve func(ssa.Value) ssa.Value) (string, string) {
+		// (the store may be made by a helper of the package through a pointer parameter bound to the cell)
+		if st, ok := in.(*ssa.Store); ok && (st.Addr == cellAlloc || resolve(st.Addr) == cellAlloc) {
 			if c, isConst := st.Val.(*ssa.Const); isConst && c.Value != nil && c.Value.ExactString() == "0" {
 				return "", "" // zero initialisation
 			}
